@@ -1,7 +1,7 @@
 (* Props/C14.v — C14: split_by_len / rsplit_by_len produce the unique tiling of [start, end) into
    pieces of the bin length (the short piece last / first).  Only statements, closed by [exact];
    proofs live in AlgebraProofs.v. *)
-From BedV Require Import Base AlgebraModel LapperSpecs AlgebraProofs.
+From BedV Require Import Base AlgebraModel LapperSpecs AlgebraProofs SplitHeadProofs.
 
 Theorem C14_split_tiles : forall s e b, 1 <= b -> exists ps, split_by_len s e b = Ok ps /\ Tiling e b s ps.
 Proof. exact split_tiles. Qed.
@@ -61,3 +61,22 @@ Proof.
     change (10 - 3) with 7. change 4 with (7 - 3) at 1. apply R_cons; [vm_compute; reflexivity|].
     change (7 - 3) with 4. apply R_last; vm_compute; [reflexivity|discriminate].
 Qed.
+
+(* the first k pieces (what a lazy consumer sees of a record with astronomically many pieces) are the prefix of the
+   tiling; the executable split_head / rsplit_head are what the `splithead` cases of the run are compared with *)
+Theorem C14_split_head_prefix : forall s e b k l, split_by_len s e b = Ok l ->
+  split_head s e b k = Ok (firstn (N.to_nat k) l).
+Proof. exact split_head_prefix. Qed.
+Print Assumptions C14_split_head_prefix.
+
+Theorem C14_rsplit_head_prefix : forall W s e b k l, rsplit_by_len W s e b = Ok l ->
+  rsplit_head W s e b k = Ok (firstn (N.to_nat k) l).
+Proof. exact rsplit_head_prefix. Qed.
+Print Assumptions C14_rsplit_head_prefix.
+
+Example C14_head_nonvacuous :
+  split_head 0 4611686018427387904 1 3 = Ok [(0, 1); (1, 2); (2, 3)] /\
+  rsplit_head 18446744073709551615 0 4611686018427387904 3 2 =
+    Ok [(4611686018427387901, 4611686018427387904); (4611686018427387898, 4611686018427387901)] /\
+  split_head 5 12 5 9 = Ok [(5, 10); (10, 12)] /\ split_by_len 5 12 5 = Ok [(5, 10); (10, 12)].
+Proof. repeat match goal with |- _ /\ _ => split end; vm_compute; reflexivity. Qed.
